@@ -17,11 +17,15 @@ package store
 //@ spec func liveEdge(db *DbSqlite, down string, up string) bool = isEdge(db, down, up) && fmodf(edgeTomb(db, down, up), 2.0) == 0.0
 //@ spec func acyclic(db *DbSqlite) bool = forall d string, u string :: isEdge(db, d, u) ==> 0 <= rank(db, u) && rank(db, u) < rank(db, d)
 
+// edgeDel(db, down, up): the edge's points contain a tombstone point with a non-zero value (the test userCheck uses)
+//@ model func edgeDel(db *DbSqlite, down string, up string) bool
+//@ opaque func hasTomb(ps []data.Point) bool reads ps
+//@ axiom hasTomb_def reads ps: forall ps []data.Point :: hasTomb(ps) == (exists k int :: 0 <= k && k < len(ps) && ps[k].Type == "tombstone" && ps[k].Value != 0.0)
 //@ extern store.(*DbSqlite).edges(sdb, tx, query, args)
 //@   fresh res0
 //@   modifies state(sdb.db)
 //@   ensures dbFailed(sdb.db) == (old(dbFailed(sdb.db)) || res1 != nil)
-//@   ensures res1 == nil && query == "SELECT * FROM edges WHERE down=?" && len(args) == 1 && typeIs(args[0], string) ==> (forall k int :: 0 <= k && k < len(res0) ==> res0[k].Down == dyn(args[0], string) && isEdge(sdb, dyn(args[0], string), res0[k].Up) && bits64(findValue(res0[k].Points, "tombstone", "")) == bits64(edgeTomb(sdb, dyn(args[0], string), res0[k].Up)))
+//@   ensures res1 == nil && query == "SELECT * FROM edges WHERE down=?" && len(args) == 1 && typeIs(args[0], string) ==> (forall k int :: 0 <= k && k < len(res0) ==> res0[k].Down == dyn(args[0], string) && isEdge(sdb, dyn(args[0], string), res0[k].Up) && bits64(findValue(res0[k].Points, "tombstone", "")) == bits64(edgeTomb(sdb, dyn(args[0], string), res0[k].Up)) && hasTomb(res0[k].Points) == edgeDel(sdb, dyn(args[0], string), res0[k].Up))
 //@   ensures res1 == nil && query == "SELECT * FROM edges WHERE down=?" && len(args) == 1 && typeIs(args[0], string) ==> (forall u string :: isEdge(sdb, dyn(args[0], string), u) ==> (exists k int :: 0 <= k && k < len(res0) && res0[k].Up == u))
 
 //@ spec func wanted(db *DbSqlite, id string, u string, includeDeleted bool) bool = (includeDeleted && isEdge(db, id, u)) || (!includeDeleted && liveEdge(db, id, u))
@@ -165,3 +169,58 @@ package store
 //@   ensures [C06] rebroadcast-batch-is-received-batch: forall i int :: old(pubN(st.nc)) <= i && i < pubN(st.nc) ==> batchOf(pubPts(st.nc, i), msg.Data) && (exists a string :: reachA(st.db, nodeOf(msg), a) && pubSubj(st.nc, i) == sprintf("up.%v.%v.%v", a, nodeOf(msg), parentOf(msg)))
 //@   ensures [C06] accepted-reaches-every-ancestor: pubN(st.nc) > old(pubN(st.nc)) && !busFailed(st.nc) && !dbFailed(st.db.db) ==> (forall a string :: reachA(st.db, nodeOf(msg), a) ==> (exists i int :: old(pubN(st.nc)) <= i && i < pubN(st.nc) && pubSubj(st.nc, i) == sprintf("up.%v.%v.%v", a, nodeOf(msg), parentOf(msg))))
 //@   assert [C05, C06] only-accepted-is-rebroadcast: err == nil at "st.processEdgePointsUpstream(nodeID, nodeID, parentID, points)"
+
+// ---- login (C09) --------------------------------------------------------------------------------------------
+// rootPath(db, x): x is connected to the root sentinel through edges without a set tombstone.
+//@ model func rootPath(db *DbSqlite, x string) bool
+//@ axiom rootPath_def: forall db *DbSqlite, x string :: rootPath(db, x) <==> (exists p string :: isEdge(db, x, p) && !edgeDel(db, x, p) && (p == "root" || rootPath(db, p)))
+//@ axiom rootPath_step: forall db *DbSqlite, x string, p string :: triggers(isEdge(db, x, p), rootPath(db, p)) ==> (isEdge(db, x, p) && !edgeDel(db, x, p) && rootPath(db, p) ==> rootPath(db, x))
+//@ axiom rootPath_root: forall db *DbSqlite, x string :: triggers(isEdge(db, x, "root")) ==> (isEdge(db, x, "root") && !edgeDel(db, x, "root") ==> rootPath(db, x))
+
+// checkUserPathRoot (the recursive function literal in userCheck)
+//@ func (*DbSqlite).userCheck$1
+//@   props C09
+//@   summary
+//@   self checkUserPathRoot
+//@   requires sdb != nil && acyclic(sdb)
+//@   modifies state(sdb.db)
+//@   decreases rank(sdb, id)
+//@   ensures [C09] live-path-to-root: res1 == nil ==> (res0 <==> rootPath(sdb, id))
+//@   loop 1:
+//@     invariant -1 <= rangeindex && rangeindex < len(edges) || rangeindex == -1
+//@     invariant forall j int :: 0 <= j && j <= rangeindex ==> hasTomb(edges[j].Points) || (edges[j].Up != "root" && !rootPath(sdb, edges[j].Up))
+//@     modifies state(sdb.db)
+//@     decreases len(edges) - rangeindex
+//@   loop 2:
+//@     invariant -1 <= rangeindex && rangeindex < len(e.Points) || rangeindex == -1
+//@     invariant !deleted && (forall k int :: 0 <= k && k <= rangeindex ==> !(e.Points[k].Type == "tombstone" && e.Points[k].Value != 0.0))
+//@     decreases len(e.Points) - rangeindex
+
+// Trusted: getNodes(nil, "all", id, ...) returns the placements of node id; they share the node's points.
+//@ extern store.(*DbSqlite).getNodes(sdb, tx, parent, id, typ, includeDel)
+//@   fresh res0
+//@   ensures res1 == nil && parent == "all" ==> (forall k int :: 0 <= k && k < len(res0) ==> res0[k].ID == id && sameSlice(res0[k].Points, res0[0].Points))
+
+//@ spec func credsMatch(u data.NodeEdge, email string, password string) bool = findText(u.Points, "email", "") == email && findText(u.Points, "pass", "") == password
+//@ func (*DbSqlite).userCheck
+//@   props C09
+//@   requires sdb != nil && sdb.db != nil && acyclic(sdb)
+//@   modifies state(sdb.db)
+//@   assert [C09] matched-placements: forall k int :: 0 <= k && k < len(ne) ==> credsMatch(ne[k], email, password) at "append(users, ne...)"
+//@   ensures [C09] only-matching-live-users: res1 == nil ==> (forall k int :: 0 <= k && k < len(res0) ==> credsMatch(res0[k], email, password) && rootPath(sdb, res0[k].ID))
+//@   loop 1:
+//@     invariant sinceLoop(ids)
+//@     modifies ids
+//@   loop 2:
+//@     invariant -1 <= rangeindex && rangeindex < len(ids) || rangeindex == -1
+//@     invariant sinceLoop(users)
+//@     invariant forall j int :: 0 <= j && j < len(users) ==> credsMatch(users[j], email, password)
+//@     modifies users, state(sdb.db)
+//@     decreases len(ids) - rangeindex
+//@   loop 3:
+//@     invariant -1 <= rangeindex && rangeindex < len(users) || rangeindex == -1
+//@     invariant sinceLoop(ret)
+//@     invariant forall j int :: 0 <= j && j < len(users) ==> credsMatch(users[j], email, password)
+//@     invariant forall j int :: 0 <= j && j < len(ret) ==> credsMatch(ret[j], email, password) && rootPath(sdb, ret[j].ID)
+//@     modifies ret, state(sdb.db)
+//@     decreases len(users) - rangeindex
